@@ -14,13 +14,9 @@ ID = "C05"
 LEVEL = "model_checking"
 MIN_OUTCOMES = 4
 MANIFEST = {
-    "text": "Explicit-state exploration of the bump transition system on the real `test` command body: for every pattern of the "
-    "stated grammar subset and every seed state, ALL flag combinations x tag choices x date kinds are executed and the announced "
-    "version (or the refusal) must equal what the reference model of the README rules computes; successors are expanded (depth 2) on "
-    "a core subset so non-initial states are covered.",
-    "note": "reference model mc/ref/model.py transcribed from README; values outside the alphabets and patterns outside the "
-    "grammar subset are not covered; `--tag final --tag-num` is treated as unspecified",
-    "technique": "explicit-state model checking of the implementation against a reference model (all events from every explored state)",
+    'text': "Explicit-state exploration of the bump transition system on the real `test` command body: for every pattern of the stated grammar subset and every seed state, ALL flag combinations x tag choices x date kinds are executed and the announced version (or the refusal) must equal what the reference model of the README rules computes; on the README patterns the same events also run through `update --dry` (argv parsing, config loading, the update command's own wiring of the flags) and must announce the same version; successors are expanded (depth 2) on a core subset so non-initial states are covered.",
+    'note': 'reference model mc/ref/model.py transcribed from README; values outside the alphabets and patterns outside the grammar subset are not covered; `--tag final --tag-num` is treated as unspecified',
+    'technique': 'explicit-state model checking of the implementation against a reference model (all events from every explored state)',
 }
 RULE = (
     "state = (pattern, version text); transition = one execution of the real `bumpver test` body for one event; "
@@ -92,6 +88,8 @@ def run_chunk(chunk):
             continue
         base = grammar.seed_date(state)
         succ = explore_state(st, pat, state, old_text, base, events)
+        if text in grammar.README_PATTERNS and len(seen) <= 3:
+            update_conformance(st, pat, state, old_text, base, events)
         if d < depth:
             for ns in succ[:40]:
                 frontier.append((ns, d + 1))
@@ -124,6 +122,36 @@ def explore_state(st, pat, state, old_text, base, events):
         st.sample({"pattern": pat.text, "state": old_text, "events": len(events), "distinct_successors": len(succ),
                    "example": [bg.flags_key(bg.ref_event(events[37], base), base)]})
     return succ
+
+
+def update_conformance(st, pat, state, old_text, base, events):
+    """The same events through `update --dry` (argv parsing, config loading, the update command's own wiring of the flags): wherever
+    the rules give a version, `update` must announce exactly that version."""
+    import os
+
+    d = pool.fresh_dir("c05u")
+    os.chdir(d)
+    world.write_tree({"bumpver.toml": f'[bumpver]\ncurrent_version = "{old_text}"\nversion_pattern = "{pat.text}"\n'.encode()})
+    for ev in events:
+        rev = bg.ref_event(ev, base)
+        exp = bg.expected(pat, state, old_text, rev)
+        if exp[0] != "ok":
+            continue
+        o = world.cli("update", "--dry", "--no-fetch", "--ignore-vcs-tag", *bg.cli_args(rev))
+        st.evaluations += 1
+        st.transitions += 1
+        st.validated += 1
+        got = o.new_version if o.exit == 0 else None
+        st.observe(("update", old_text, ev, o.exit, got))
+        if got == exp[1]:
+            st.outcomes["ok:update-announces-the-same-version"] += 1
+            continue
+        st.outcomes["violation"] += 1
+        gs = M.recognise(pat.tree, got) if got else None
+        diff = bg.first_diff(pat, gs, exp[2]) if gs is not None else ("refused" if got is None else "unparsable")
+        st.violation(f"C05:update-differs-from-the-rules:{diff}:{bg.mode_key(rev, base)}", {"pattern": pat.text, "old": old_text, "flags": bg.cli_args(rev), "cli": "update"},
+                     {"expected": exp[1], "announced": got, "exit": o.exit, "log": o.log[-2:]})
+    os.chdir("/")
 
 
 def judge(st, pat, state, old_text, base, rev, exp, o, got):
@@ -173,6 +201,10 @@ def replay(case, st):
            "pin_increments": "--pin-increments" in flags, "pin_date": "--pin-date" in flags,
            "date": dt.date.fromisoformat(flags[flags.index("--date") + 1]) if "--date" in flags else None}
     exp = bg.expected(pat, state, case["old"], rev)
+    if case.get("cli") == "update":
+        update_conformance(st, pat, state, case["old"], base, [ev for ev in bg.event_space(any(f in M.CAL_FIELDS for f in pat.fields))
+                                                               if bg.cli_args(bg.ref_event(ev, base)) == case["flags"]])
+        return
     o = bg.impl_test(pat.text, case["old"], rev)
     st.observe((o.exit, o.new_version))
     judge(st, pat, state, case["old"], base, rev, exp, o, o.new_version if o.exit == 0 else None)
